@@ -236,3 +236,34 @@ def run(ck, facts):
                           "whatever the previous item left there is printed into this item's file" % (root, ".".join(path), what, root), C.loc(f, lp.get("ln")))
     if n5 < 2:
         ck.bad("R5", "floor", "only %d (loop, scratch buffer) pairs found (2 counted: kotlin::run types/traits x callback_params)" % n5)
+
+    # ---------------- R4 (cont.) generated files replace whatever was there: whole-file writes only
+    writers = []
+    for unit in (tool, tbin):
+        for f in unit.fn_list:
+            if "hir" not in f:
+                continue
+            for n in C.walk(C.fn_body(f)):
+                if n.get("k") not in ("call", "mcall"):
+                    continue
+                cal = C.callee(n) or ""
+                if re.search(r"std::fs::write$|fs::File::create$|fs::File::create_new$", cal):
+                    writers.append(("replace", cal.split("::")[-1], f, n))
+                elif re.search(r"fs::OpenOptions::open$|fs::File::options$", cal) or (n.get("k") == "mcall" and n.get("m") == "open" and "OpenOptions" in (n.get("rty") or "")):
+                    chain = []
+                    x = n
+                    while isinstance(x, dict) and x.get("k") == "mcall":
+                        chain.append((x.get("m"), [C.strip(a_).get("v") for a_ in x.get("a", [])]))
+                        x = C.strip(x["recv"])
+                    trunc = any(m_ == "truncate" and str(a_[:1]) in ("[True]", "['true']", "[1]") for m_, a_ in chain) or any(m_ == "create_new" for m_, a_ in chain)
+                    wr = any(m_ in ("write", "append", "create") for m_, a_ in chain)
+                    if wr:
+                        writers.append(("replace" if trunc and not any(m_ == "append" for m_, _ in chain) else "in-place", "OpenOptions", f, n))
+    bad_w = [(w[2]["path"], w[3].get("ln")) for w in writers if w[0] != "replace"]
+    ck.expect(not bad_w and any(w[0] == "replace" for w in writers), "R4", "output/whole-file-writes", "%d writers, all replacing" % len(writers),
+              "an output file is opened for writing without truncation (%s): regenerating into a directory that holds a longer earlier revision leaves its tail behind, so the output is no longer a function of the bridge" % bad_w[:2],
+              C.loc(writers[0][2]) if writers else None)
+    # attributes of one impl block must not reach its sibling blocks: otherwise permuting or inserting unrelated types changes other types' files (shares C13.R7)
+    import c13
+    sub = C.SubCheck(ck, "R5", "", ["R7"], key_re=r"ast::modules|add_attrs")
+    c13.run(sub, facts)
